@@ -10,7 +10,7 @@ CONSTANTS
   MaxForks = 1
   MaxTouch = 1
   InitConts <- InitA1
-  InFlightReads = FALSE
+  InFlightReads = TRUE
   AlignedOnly = FALSE
 
 INVARIANT RetainedReadable
@@ -18,4 +18,5 @@ INVARIANT PrunedNeverDifferent
 INVARIANT NoWrongNode
 INVARIANT RootCanonical
 INVARIANT PrunedUnreadable
+INVARIANT LayoutPersistent
 CHECK_DEADLOCK FALSE
